@@ -28,20 +28,12 @@ def folderTree : List (String × String × String × String) := [
 ]
 
 def fsHandlers : List (String × String) := [
-  ("_create_file_action", "def _create_file_action(request, context):\n    if not request[2] and self.get_file(folder_name=request[0] or 'root', file_name=request[1]):\n        return RequestResponse.from_bool(False)\n    file = self.create_file(folder_name=request[0], file_name=request[1], force=request[2])\n    if not file:\n        return RequestResponse.from_bool(False)\n    return RequestResponse(status='success', data={'file_name': file.name, 'folder_name': file.folder_name, 'file_type': file.file_type.name, 'file_size': file.size})"),
-  ("_create_folder_action", "def _create_folder_action(request, context):\n    folder = self.create_folder(folder_name=request[0])\n    if not folder:\n        return RequestResponse.from_bool(False)\n    return RequestResponse(status='success', data={'folder_name': folder.name})"),
-  ("_access_file_action", "def _access_file_action(request, context):\n    file = self.get_file(folder_name=request[0], file_name=request[1])\n    if not file:\n        return RequestResponse.from_bool(False)\n    if self.access_file(folder_name=request[0], file_name=request[1]):\n        return RequestResponse(status='success', data={'file_name': file.name, 'folder_name': file.folder_name, 'file_type': file.file_type.name, 'file_size': file.size, 'file_status': file.health_status.name})\n    return RequestResponse.from_bool(False)"),
   ("_file_action", "def _file_action(request, context):\n    file = self.get_file(folder_name=request[0], file_name=request[1])\n    return file._request_manager(request[2:], context)")
 ]
 
 -- re-read 2026-09-26 after fix 4477cb4: each validator first answers False when the request carries fewer options than it
 -- reads (the model's operations always carry them, so the modelled behaviour is unchanged)
 def validators : List (String × String) := [
-  ("FileSystem._FolderExistsValidator", "if len(request) < 1:\n    return False; return self.file_system.get_folder(folder_name=request[0]) is not None"),
-  ("FileSystem._FolderNotDeletedValidator", "if len(request) < 1:\n    return False; folder = self.file_system.get_folder(folder_name=request[0], include_deleted=True); return folder is not None and (not folder.deleted)"),
-  ("FileSystem._FileExistsValidator", "if len(request) < 2:\n    return False; return self.file_system.get_file(folder_name=request[0], file_name=request[1]) is not None"),
-  ("Folder._FileExistsValidator", "if len(request) < 1:\n    return False; return self.folder.get_file(file_name=request[0]) is not None"),
-  ("Folder._FileNotDeletedValidator", "if len(request) < 1:\n    return False; file = self.folder.get_file(file_name=request[0]); return file is not None and (not file.deleted)")
 ]
 
 -- re-read 2026-09-26 after a79d153 (restore countdown loaded with max(duration, 1)); round 7: seven methods left for the translated tie
